@@ -111,7 +111,7 @@ func buildFromDefinition(def *configDefinition, lc *loaderContext) (cfg *Config,
 	for k, stages := range def.Pipelines {
 		p := &scheduler.Stage{Name: k}
 		for _, stage := range stages {
-			if stage != nil && stage.Task == "" && stage.Pipeline != "" {
+			if stage != nil && stage.Task == "" {
 				p.DependsOn = append(p.DependsOn, stage.Pipeline)
 			}
 		}
